@@ -325,7 +325,11 @@ class CFG:
         if isinstance(st, (ast.With, ast.AsyncWith)):
             e = self._new('with_enter', st)
             self._connect(frontier, e)
-            if isinstance(st, ast.AsyncWith):
+            timeout_only = all(isinstance(i.context_expr, ast.Call) and call_name(i.context_expr) in ('atimeout', 'timeout')
+                               for i in st.items)
+            if isinstance(st, ast.AsyncWith) and timeout_only:
+                pass        # entering an async_timeout block neither suspends nor raises
+            elif isinstance(st, ast.AsyncWith):
                 e.suspends = True
                 self._route([e], 'cancel', 'cancel')
                 self._route([e], 'exc', 'exc')
